@@ -181,7 +181,14 @@ class Check(PropertyCheck):
                             [cc[0] + e * max(abs(cc[0]), 1.0), cc[1] - e * max(abs(cc[1]), 1.0)]])
             ang = G.rangle(rng)
             pts = query_points(rng, d if d['kind'] != 'compound' else d['a'], 14)
-            cases.append({'kind': 'rotate', 'region': d, 'o': o, 'angle': ang, 'pts': [list(p) for p in pts]})
+            case = {'kind': 'rotate', 'region': d, 'o': o, 'angle': ang, 'pts': [list(p) for p in pts]}
+            if d['kind'] != 'compound' and (d['kind'] == 'text' or rng.random() < 0.2):
+                # visual attributes as a parsed DS9 line gives them (a text angle among them): "same metadata" covers them
+                case['visual'] = dict(rng.sample([('rotation', 30.0), ('color', 'green'), ('linewidth', 2), ('fontsize', 12),
+                                                  ('textangle', 45.0), ('fill', True), ('marker', '+')], rng.randint(1, 3)))
+                if d['kind'] == 'text':
+                    case['visual']['rotation'] = float(rng.choice([30, 90, 275]))
+            cases.append(case)
         n2 = 250 if tier == 'quick' else 8000
         for _ in range(n2):
             if rng.random() < 0.8:
@@ -201,6 +208,8 @@ class Check(PropertyCheck):
         from regions import PixCoord
         d = case['region']
         reg = G.build(d)
+        for kk, vv in (case.get('visual') or {}).items():
+            reg.visual[kk] = vv
         if case['kind'] == 'rotate':
             before = snapshot(reg)
             o = PixCoord(case['o'][0], case['o'][1])
